@@ -90,7 +90,12 @@ def gen_case(seed):
     if jump and entries and rnd.random() < 0.5:
         # an mtime that is in the future at the first listing and in the past after the clock moved on
         entries[0]["mtime"] = ((now + rnd.randint(60, max(61, jump))) // 60) * 60
-    return {"seed": seed, "tz": rnd.choice(ZONES), "now": now, "jump": jump, "entries": entries, "no_mlsx": rnd.random() < 0.4}
+    case = {"seed": seed, "tz": rnd.choice(ZONES), "now": now, "jump": jump, "entries": entries, "no_mlsx": rnd.random() < 0.4}
+    # the listed directory: entered first and listed as the working directory, or named in the
+    # listing command (relative or absolute); names that look like `ls` switches included
+    case["dname"] = rnd.choice(["dir", "dir", "dir", "-a", "-la", "-l x", "d e", "-R"])
+    case["how"] = rnd.choice(["cwd", "cwd", "relative", "absolute"])
+    return case
 
 
 class NoMlsxServer(aioftp.Server):
@@ -152,7 +157,9 @@ def _run_case(case):
         world.backend_cls = SizedMemory
         state = world.fs_state
         root = state[0]
-        d = aioftp.pathio.Node("dir", "dir", content=[])
+        dname = case.get("dname", "dir")
+        how = case.get("how", "cwd")
+        d = aioftp.pathio.Node("dir", dname, content=[])
         d.mtime = d.ctime = case["now"] - 1000
         root.content.append(d)
         for e in entries:
@@ -195,11 +202,13 @@ def _run_case(case):
             await server.start("127.0.0.1", 2121)
             await client.connect("127.0.0.1", 2121)
             await client.login()
-            await client.change_directory("dir")
+            if how == "cwd":
+                await client.change_directory(dname)
+            target = {"cwd": "", "relative": dname, "absolute": "/" + dname}[how]
             kinds = [("LIST", "LIST")] if case.get("no_mlsx") else [("MLSD", "MLSD"), ("LIST", "LIST")]
             for kind, raw in kinds + [("default", None)]:
                 t0 = world.clock.time()
-                got = await client.list(raw_command=raw)
+                got = await client.list(target, raw_command=raw)
                 t1 = world.clock.time()
                 label = kind if kind != "default" else ("LIST-fallback" if case.get("no_mlsx") else "MLSD")
                 check_listing(label, got, t0, t1)
@@ -207,7 +216,7 @@ def _run_case(case):
                     world.clock.jump(case["jump"])
             for e in entries[:4]:
                 t0 = world.clock.time()
-                st = await client.stat(e["name"])
+                st = await client.stat((target + "/" if target else "") + e["name"])
                 t1 = world.clock.time()
                 label = "stat-LIST-fallback" if case.get("no_mlsx") else "MLST"
                 import pathlib
@@ -345,7 +354,7 @@ def main(argv=None):
         print("not reproduced")
         return 0
     quick = a.tier == "quick"
-    ev = common.Evidence(PROP, a.tier, a.seed, "exploration", "seeded disk images (0..12 entries, files 0..2^40 bytes, directories, mtimes over 1971..2037 biased to now / now - half year / New Year / Feb 28-29 / future) x seeded wall clock 'now' (biased to New Year, end of February, mid year) with optional clock jump between listings x process time zone in {UTC, Europe/Berlin, Asia/Kolkata, America/New_York} x server with or without MLSD/MLST; real client lists (MLSD, LIST, default) and stats; names / types / sizes always compared, modify compared to the format's precision except inside the one-day half-year ambiguity window; non-trivial = at least one entry compared; distinct = distinct run digests.  pure_subcheck.ls_date_roundtrips counts function-level parse(format(mtime, now), now) evaluations")
+    ev = common.Evidence(PROP, a.tier, a.seed, "exploration", "seeded disk images (0..12 entries, files 0..2^40 bytes, directories, mtimes over 1971..2037 biased to now / now - half year / New Year / Feb 28-29 / future) x seeded wall clock 'now' (biased to New Year, end of February, mid year) with optional clock jump between listings x process time zone in {UTC, Europe/Berlin, Asia/Kolkata, America/New_York} x server with or without MLSD/MLST x the listed directory entered first or named in the command (relative / absolute; names like '-a', '-l x' included); real client lists (MLSD, LIST, default) and stats; names / types / sizes always compared, modify compared to the format's precision except inside the one-day half-year ambiguity window; non-trivial = at least one entry compared; distinct = distinct run digests.  pure_subcheck.ls_date_roundtrips counts function-level parse(format(mtime, now), now) evaluations")
     rep = common.Reporter(PROP, ev)
     deadline = _time.time() + (a.budget or (60 if quick else 1200))
     n = 3000 if quick else 400000
